@@ -325,10 +325,17 @@ pub async fn handle_srt_packet(
             //   routing has mostly moved off it.
             //
             // Only data packets have seq != None (control packets have MSB set).
+            //
+            // The override is an enhanced-mode feature (classic stays the plain
+            // reference algorithm), and it must respect the same eligibility the
+            // scheduler does: never onto a timed-out or stall-gated link.
             if seq.is_some()
+                && !config_snap.mode.is_classic()
                 && (critical_window.is_critical_now(packet_time_ms)
                     || srtla_protocol::is_srt_data_retransmit(pkt))
                 && let Some(best_idx) = srtla_core::priority::select_best_quality_idx(connections)
+                && !connections[best_idx].is_timed_out(packet_time_ms)
+                && !connections[best_idx].is_stall_gated()
                 && sel_idx != Some(best_idx)
             {
                 trace!(
